@@ -6,7 +6,7 @@ DESCRIPTION = {
     "rule": ("Two sessions (originator, responder) with cryptobox KeyRings are joined through a scripted router (both frameworks, several serializers).  Hypothesis draws the "
              "keyring layout {default key, per-prefix keys, originator-only / responder-only key halves, mismatching keys, a key for the covering prefix installed on both ends "
              "*after* the URIs were first used - messages must then open under the new key with PyNaCl directly, ciphertexts under the superseded key are refused}, URIs/args/kwargs from the JSON domain (bytes, nesting, "
-             "unicode) carrying a unique marker (also requests without any argument, whose result still carries it), and the direction {publish->event, call->invocation, yield->result, error}.  Fault enumeration in transit: every single-byte "
+             "unicode) carrying a unique marker (also requests without any argument, whose result still carries it), and the direction {publish->event, call->invocation, yield->result incl. progressive results, error}.  Fault enumeration in transit: every single-byte "
              "alteration of the ciphertext (each position x a drawn non-zero XOR; thorough: several XOR values), truncations, swapping the envelope URI (ciphertext of a.b delivered "
              "under registration/subscription a.c) and replay under another key.  Oracle: untampered => handler/endpoint/caller receive exactly the sent args/kwargs, the WAMP "
              "message has enc_algo='cryptobox', a payload and no args/kwargs, and the serialized bytes do not contain the marker; tampered / wrong key / URI mismatch => the "
@@ -58,7 +58,8 @@ def strategy():
     return st.fixed_dictionaries({"layout": st.sampled_from(["default", "default", "prefix", "halves", "mismatch", "responder-no-codec", "rekey"]),
                                   "direction": st.sampled_from(["publish", "call", "call-error"]), "args": vals, "kwargs": kws,
                                   "ser": st.sampled_from(["json", "cbor", "msgpack"]), "xor": st.integers(1, 255), "seed": st.integers(0, 1 << 20),
-                                  "empty": st.sampled_from([False, False, False, True])})    # a request without any arguments (the result still carries the secret)
+                                  "empty": st.sampled_from([False, False, False, True]),
+                                  "progress": st.booleans()})     # calls ask for progressive results: encrypted progressive chunks reach on_progress exactly or not at all    # a request without any arguments (the result still carries the secret)
 
 
 def keyrings(layout):
@@ -235,7 +236,12 @@ def check_flow(c, n_xors=1):
                 del invoked[:]
                 p.ko.set_key("com.myapp.", p.rekey["make"]())
                 p.kr.set_key("com.myapp.", p.rekey["make"]())
-            tr_call = o.track(o.call(lambda: o.session.call("com.myapp.proc1", *args, **kwargs)))
+            prog = []
+            call_kwargs = dict(kwargs)
+            if c.get("progress") and c["direction"] == "call":
+                from autobahn.wamp.types import CallOptions
+                call_kwargs["options"] = CallOptions(on_progress=lambda *a, **k: prog.append((a, k)))
+            tr_call = o.track(o.call(lambda: o.session.call("com.myapp.proc1", *args, **call_kwargs)))
             call = o.t.sent[-1]
             p.wire_checks(o, call, "call")
             if layout == "rekey":
@@ -307,6 +313,35 @@ def check_flow(c, n_xors=1):
                         raise Violation("C20|result|onMessage-raised|" + exc_key(err), repr(err), c)
                     if t2.n != 1 or t2.ok or not isinstance(t2.value, ApplicationError) or t2.value.error not in ENC_URIS:
                         raise Violation("C20|result|tampered-result-not-an-encryption-error", "%s: n=%d ok=%r value=%r" % (name, t2.n, t2.ok, brief(t2.value)), c)
+                if c.get("progress") and p.kr is not None:
+                    # progressive chunks for the pending call, encrypted by the responder's keyring: genuine, altered, for another procedure, under a foreign key
+                    chunk_args, chunk_kw = [MARK + "-chunk", 1], {"n": 1}
+                    enc = p.kr.encode(False, "com.myapp.proc1", chunk_args, chunk_kw)
+
+                    def feed_progress(payload, what):
+                        n0 = len(prog)
+                        err = o.feed(M.Result(call.request, payload=payload, enc_algo=enc.enc_algo, enc_key=enc.enc_key, enc_serializer=enc.enc_serializer, progress=True))
+                        if err is not None:
+                            raise Violation("C20|progress|onMessage-raised|" + exc_key(err), "%s: %r" % (what, err), c)
+                        if tr_call.n:
+                            raise Violation("C20|progress|progressive-result-completed-the-call", what, c)
+                        return prog[n0:]
+                    got = feed_progress(enc.payload, "genuine")
+                    if len(got) != 1 or norm(list(got[0][0])) != norm(chunk_args) or norm(got[0][1]) != norm(chunk_kw):
+                        raise Violation("C20|progress|payload-not-recovered", "on_progress saw %r" % (brief(got),), c)
+                    for name, bad in tampered_variants(enc.payload, c["xor"], n_xors)[::2]:
+                        got = feed_progress(bad, name)
+                        stats["tampered"] += 1
+                        if got:
+                            raise Violation("C20|progress|tampered-ciphertext-delivered", "%s: on_progress invoked with %r" % (name, brief(got)), c)
+                    other = p.kr.encode(False, "com.myapp.proc2", ["chunk of another call"], {"x": 1})
+                    got = feed_progress(other.payload, "swapped-uri")
+                    if got:
+                        raise Violation("C20|progress|envelope-uri-mismatch-delivered", "a progressive result encrypted for proc2 reached on_progress of a call to proc1: %r" % (brief(got),), c)
+                    foreign, _ = keyrings("default")
+                    got = feed_progress(foreign.encode(False, "com.myapp.proc1", ["forged"], None).payload, "foreign-key")
+                    if got:
+                        raise Violation("C20|progress|wrong-key-delivered", "a progressive result under a foreign key reached on_progress: %r" % (brief(got),), c)
                 err = o.feed(M.Result(call.request, payload=reply.payload, enc_algo=reply.enc_algo, enc_key=reply.enc_key, enc_serializer=reply.enc_serializer))
                 if err is not None:
                     raise Violation("C20|result|onMessage-raised|" + exc_key(err), repr(err), c)
@@ -359,7 +394,7 @@ def flows(col, seed, n, xors):
             if in_autobahn(e):
                 raise Violation("C20|exception|" + exc_key(e), repr(e), c)
             raise
-        col.case(True, dig=c, cls=["layout:" + c["layout"], "direction:" + c["direction"], "ser:" + c["ser"]] + (["request-without-arguments"] if c.get("empty") else []), sample=dict(c, tampered_variants=stats["tampered"]))
+        col.case(True, dig=c, cls=["layout:" + c["layout"], "direction:" + c["direction"], "ser:" + c["ser"]] + (["request-without-arguments"] if c.get("empty") else []) + (["progressive-results"] if c.get("progress") and c["direction"] == "call" else []), sample=dict(c, tampered_variants=stats["tampered"]))
         col.count("tampered-ciphertexts", stats["tampered"])
     run_hypothesis(col, "flows", strategy(), body, n, seed)
 
